@@ -28,6 +28,18 @@ CHECKS = {
 
 NOT_APPLICABLE = []
 
+CHECKS['C11'] = (
+    'bounded exploration of real engine runs on minidb in which the stop '
+    'request (state, position, optionally after a pause, on the root or on a '
+    'sub-workflow) and the action outcomes are solver variables; invariants '
+    'after every delivery, tree checks at quiescence',
+    'A stopped execution holds the requested state and message (or the '
+    'request is refused with a declared error); nothing is created in it '
+    'afterwards, late results change neither state nor output; after a '
+    'cancel every sub-workflow below is finished, reports exactly once and '
+    'its parent task carries the same state. Known finding F16 reported.',
+    '§3 C11')
+
 CHECKS['C10'] = (
     'bounded exploration of real engine runs on minidb in which the position '
     'of the pause request, the action outcomes and guard values (and, '
